@@ -871,22 +871,24 @@ mod os {
                 posix::chdir(cwd)?;
             }
 
+            fn install(stream: Option<Rc<File>>, target: i32) -> io::Result<()> {
+                if let Some(stream) = stream {
+                    let fd = stream.as_raw_fd();
+                    if fd != target {
+                        // the duplicate is not close-on-exec
+                        posix::dup2(fd, target)?;
+                    } else {
+                        // already in place, make sure it survives exec
+                        let old = posix::fcntl(fd, posix::F_GETFD, None)?;
+                        posix::fcntl(fd, posix::F_SETFD, Some(old & !posix::FD_CLOEXEC))?;
+                    }
+                }
+                Ok(())
+            }
             let (stdin, stdout, stderr) = child_ends;
-            if let Some(stdin) = stdin {
-                if stdin.as_raw_fd() != 0 {
-                    posix::dup2(stdin.as_raw_fd(), 0)?;
-                }
-            }
-            if let Some(stdout) = stdout {
-                if stdout.as_raw_fd() != 1 {
-                    posix::dup2(stdout.as_raw_fd(), 1)?;
-                }
-            }
-            if let Some(stderr) = stderr {
-                if stderr.as_raw_fd() != 2 {
-                    posix::dup2(stderr.as_raw_fd(), 2)?;
-                }
-            }
+            install(stdin, 0)?;
+            install(stdout, 1)?;
+            install(stderr, 2)?;
             posix::reset_sigpipe()?;
 
             // Change the group before the user: once the user ID has been
